@@ -31,8 +31,9 @@ theorem OutRel.shape_eq {R : C1 → C2 → Prop} {a : Out K V C1} {b : Out K V C
     a.shape = b.shape := by
   cases h <;> rfl
 
-/-- the primitive steps of the two machines preserve the indexed relation -/
-structure MSim (M1 : Mach K V C1) (M2 : Mach K V C2) (R : Nat → C1 → C2 → Prop) : Prop where
+/-- the primitive steps of the two machines preserve the indexed relation; `RC` relates the caches
+    returned by copy() -/
+structure MSim (M1 : Mach K V C1) (M2 : Mach K V C2) (R : Nat → C1 → C2 → Prop) (RC : C1 → C2 → Prop) : Prop where
   weaken : ∀ {n c s}, R (n + 1) c s → R n c s
   find : ∀ {n c s} (k : K), R n c s → M1.find c k = M2.find s k
   hit : ∀ {n c s} (k : K), R n c s → M1.find c k = true →
@@ -41,20 +42,20 @@ structure MSim (M1 : Mach K V C1) (M2 : Mach K V C2) (R : Nat → C1 → C2 → 
   setitem : ∀ {n c s} (k : K) (v : V), R n c s → R n (M1.setitem c k v) (M2.setitem s k v)
   soft : ∀ {n c s}, R (n + 1) c s → R n (M1.soft c) (M2.soft s)
   step : ∀ {n c s} (op : Op K V), R n c s → op.isLookup = false →
-    R n (M1.step c op).1 (M2.step s op).1 ∧ OutRel (R 0) (M1.step c op).2 (M2.step s op).2
+    R n (M1.step c op).1 (M2.step s op).1 ∧ OutRel RC (M1.step c op).2 (M2.step s op).2
 
 /-- what `MSim.rget` proves about a pair of `__getitem__` implementations -/
-def GSim (R : Nat → C1 → C2 → Prop) (g1 : C1 → K → C1 × Out K V C1) (g2 : C2 → K → C2 × Out K V C2) : Prop :=
+def GSim (R : Nat → C1 → C2 → Prop) (RC : C1 → C2 → Prop) (g1 : C1 → K → C1 × Out K V C1) (g2 : C2 → K → C2 × Out K V C2) : Prop :=
   ∀ n c s k, R n c s →
-    R n (g1 c k).1 (g2 s k).1 ∧ OutRel (R 0) (g1 c k).2 (g2 s k).2 ∧
+    R n (g1 c k).1 (g2 s k).1 ∧ OutRel RC (g1 c k).2 (g2 s k).2 ∧
     ((g1 c k).2 = .keyError → R (n + 1) (g1 c k).1 (g2 s k).1)
 
-variable {M1 : Mach K V C1} {M2 : Mach K V C2} {R : Nat → C1 → C2 → Prop}
+variable {M1 : Mach K V C1} {M2 : Mach K V C2} {R : Nat → C1 → C2 → Prop} {RC : C1 → C2 → Prop}
 
-theorem MSim.stepWith (h : MSim M1 M2 R) {g1 : C1 → K → C1 × Out K V C1} {g2 : C2 → K → C2 × Out K V C2}
-    (hg : GSim R g1 g2) {n : Nat} {c : C1} {s : C2} (hr : R n c s) (op : Op K V) :
+theorem MSim.stepWith (h : MSim M1 M2 R RC) {g1 : C1 → K → C1 × Out K V C1} {g2 : C2 → K → C2 × Out K V C2}
+    (hg : GSim R RC g1 g2) {n : Nat} {c : C1} {s : C2} (hr : R n c s) (op : Op K V) :
     R n (M1.stepWith g1 c op).1 (M2.stepWith g2 s op).1 ∧
-    OutRel (R 0) (M1.stepWith g1 c op).2 (M2.stepWith g2 s op).2 := by
+    OutRel RC (M1.stepWith g1 c op).2 (M2.stepWith g2 s op).2 := by
   cases op with
   | getitem k => exact ⟨(hg n c s k hr).1, (hg n c s k hr).2.1⟩
   | get k d =>
@@ -116,8 +117,8 @@ theorem MSim.stepWith (h : MSim M1 M2 R) {g1 : C1 → K → C1 × Out K V C1} {g
 def EndRel (a : Option (Out K V C1)) (b : Option (Out K V C2)) : Prop :=
   (a = none ∧ b = none) ∨ (a = some .keyError ∧ b = some .keyError) ∨ (a = some .raised ∧ b = some .raised)
 
-theorem MSim.runWith (h : MSim M1 M2 R) {g1 : C1 → K → C1 × Out K V C1} {g2 : C2 → K → C2 × Out K V C2}
-    (hg : GSim R g1 g2) (l : List (Op K V)) {n : Nat} {c : C1} {s : C2} (hr : R n c s) :
+theorem MSim.runWith (h : MSim M1 M2 R RC) {g1 : C1 → K → C1 × Out K V C1} {g2 : C2 → K → C2 × Out K V C2}
+    (hg : GSim R RC g1 g2) (l : List (Op K V)) {n : Nat} {c : C1} {s : C2} (hr : R n c s) :
     R n (runWith (M1.stepWith g1) c l).1 (runWith (M2.stepWith g2) s l).1 ∧
     EndRel (runWith (M1.stepWith g1) c l).2 (runWith (M2.stepWith g2) s l).2 := by
   induction l generalizing c s with
@@ -144,8 +145,8 @@ theorem MSim.runWith (h : MSim M1 M2 R) {g1 : C1 → K → C1 × Out K V C1} {g2
 
 /-- MAIN generic lemma: `__getitem__` with a re-entrant on_miss preserves the simulation, returns equal
     results, and a KeyError outcome means a miss was counted that no soft miss has used up yet -/
-theorem MSim.rget (h : MSim M1 M2 R) (P : K → OmProg K V) (fuel : Nat) :
-    GSim R (M1.rget P fuel) (M2.rget P fuel) := by
+theorem MSim.rget (h : MSim M1 M2 R RC) (P : K → OmProg K V) (fuel : Nat) :
+    GSim R RC (M1.rget P fuel) (M2.rget P fuel) := by
   induction fuel with
   | zero =>
     intro n c s k hr
@@ -195,10 +196,10 @@ theorem MSim.rget (h : MSim M1 M2 R) (P : K → OmProg K V) (fuel : Nat) :
           · refine ⟨h.weaken a1, OutRel.raised, fun e => ?_⟩
             simp at e
 
-theorem MSim.rstep (h : MSim M1 M2 R) (P : K → OmProg K V) (fuel : Nat) {n : Nat} {c : C1} {s : C2}
+theorem MSim.rstep (h : MSim M1 M2 R RC) (P : K → OmProg K V) (fuel : Nat) {n : Nat} {c : C1} {s : C2}
     (hr : R n c s) (op : Op K V) :
     R n (M1.rstep P fuel c op).1 (M2.rstep P fuel s op).1 ∧
-    OutRel (R 0) (M1.rstep P fuel c op).2 (M2.rstep P fuel s op).2 :=
+    OutRel RC (M1.rstep P fuel c op).2 (M2.rstep P fuel s op).2 :=
   h.stepWith (h.rget P fuel) hr op
 
 /-! ### worlds -/
